@@ -279,7 +279,7 @@ CLAIMS = [
           "parse_whitespace skips exactly the bytes SP, TAB, LF, CR, FF and line comments from ';' to the next LF or "
           "EOF, one byte per step, returns the first other byte unconsumed (or end of input), never a syntax error, "
           "and an I/O error exactly when the read at the cursor fails",
-          "any amount of trivia (one-step induction on both loops); every byte value; EOF and I/O error anywhere", configs=("fast",)),
+          "any amount of trivia (one-step induction on both loops); every byte value; EOF and I/O error anywhere", configs=("fast",), also=("C06", "C19")),
     Claim("c12_adapters", "C12", "quick", claim_adapters,
           "value_iter, datum_iter and Iterator for Parser each call next_value/next_datum exactly once per item and "
           "map Ok(None) to the end of iteration, Ok(Some(v)) to Some(Ok(v)), Err(e) to Some(Err(e))",
